@@ -53,6 +53,11 @@ inductive Reach (n : Nat) (edge : Nat → Nat → Bool) (src : Nat → Bool) : N
   | base {v : Nat} : v < n → src v = true → Reach n edge src v
   | step {u v : Nat} : Reach n edge src u → edge u v = true → v < n → Reach n edge src v
 
+/-- `v` is in the component of `s`: joined by a chain of edges taken in either direction -/
+inductive Conn (n : Nat) (edge : Nat → Nat → Bool) (s : Nat) : Nat → Prop
+  | refl : s < n → Conn n edge s s
+  | step {u v : Nat} : Conn n edge s u → (edge u v = true ∨ edge v u = true) → v < n → Conn n edge s v
+
 /-- `-1` exactly on the nodes that no seed reaches -/
 def minusOneIff (labels : List Int) (reach : List Bool) : Bool :=
   (List.range labels.length).all fun i => (labels.getD i 0 == -1) == !(reach.getD i false)
